@@ -5,6 +5,7 @@ import (
 	"fmt"
 	"hash/crc32"
 	"os"
+	"strings"
 	"time"
 
 	"github.com/practable/relay/verifharness/cmd/c03/hubkit"
@@ -53,6 +54,7 @@ type item struct {
 	ID, Sender uint64
 	Seq        int
 	Tiny       bool
+	size       int // bytes of the stream this item occupies
 }
 
 // parse splits a frame into whole items; bad != "" when the frame does not consist of whole,
@@ -61,7 +63,7 @@ func parse(data []byte) (items []item, bad string) {
 	for len(data) > 0 {
 		c := data[0]
 		if c >= 'a' && c <= 'z' {
-			items = append(items, item{ID: 100 + uint64(c-'a'), Tiny: true})
+			items = append(items, item{ID: 100 + uint64(c-'a'), Tiny: true, size: 1})
 			data = data[1:]
 			continue
 		}
@@ -83,7 +85,7 @@ func parse(data []byte) (items []item, bad string) {
 		if crc32.ChecksumIEEE(data[headerLen:headerLen+ln]) != crc {
 			return items, "crc"
 		}
-		items = append(items, item{ID: id, Sender: snd, Seq: seq})
+		items = append(items, item{ID: id, Sender: snd, Seq: seq, size: headerLen + ln})
 		data = data[headerLen+ln:]
 	}
 	return items, ""
@@ -94,10 +96,44 @@ type finfo struct {
 	bad   string
 }
 
-func digest(f *hubkit.Frame) {
-	it, bad := parse(f.Data)
-	f.Info = finfo{it, bad}
-	f.Data = nil
+// newDigest returns the per-connection frame parser. It reads the received frames as ONE stream of
+// records: when a frame ends inside a record (which the property forbids) the frame is marked, the
+// partial record is carried over, and if the following frame continues it the record is still
+// recognised - so the report names the record that straddles the boundary and parsing stays in step.
+func newDigest() func(*hubkit.Frame) {
+	var carry []byte
+	return func(f *hubkit.Frame) {
+		data := f.Data
+		straddle := ""
+		if len(carry) > 0 {
+			data = append(carry, f.Data...)
+			carry = nil
+			if it, bad := parse(data); bad == "" || len(it) > 0 {
+				if len(it) > 0 && !it[0].Tiny {
+					straddle = fmt.Sprintf("record id %d (sender %d seq %d) began in the previous frame and ends in this one", it[0].ID, it[0].Sender, it[0].Seq)
+				}
+			} else {
+				data = f.Data // the continuation is not there: judge this frame on its own
+			}
+		}
+		it, bad := parse(data)
+		if bad == "frame-boundary-inside-record" {
+			// keep the unfinished record for the next frame
+			used := 0
+			for _, x := range it {
+				used += x.size
+			}
+			carry = append([]byte(nil), data[used:]...)
+		}
+		if straddle != "" {
+			if bad == "" {
+				bad = "continues-record-of-previous-frame"
+			}
+			bad += ": " + straddle
+		}
+		f.Info = finfo{it, bad}
+		f.Data = nil
+	}
 }
 
 // ---- running one scenario on the real relay ---------------------------------------------------
@@ -131,7 +167,7 @@ func runScenario(k *hubkit.Kit, c *Case, dist map[string]int) map[uint64]*peerIn
 			if o.Slow {
 				buf = 4096
 			}
-			p := k.JoinBuf(o.N, c.Topic, path, o.Scopes, digest, buf)
+			p := k.JoinBuf(o.N, c.Topic, path, o.Scopes, newDigest(), buf)
 			peers[o.N] = &peerInfo{p: p, scopes: o.Scopes, joinedAt: i, leftAt: -1}
 			order = append(order, p)
 			if p.Refused != "" {
@@ -495,7 +531,7 @@ func oracle(c Case, idx int, peers map[uint64]*peerInfo, out *ChildOut) {
 		for fi, f := range s.Frames {
 			if f.Bad != "" {
 				cl := "damaged-data"
-				if f.Bad == "frame-boundary-inside-record" {
+				if strings.HasPrefix(f.Bad, "frame-boundary-inside-record") || strings.HasPrefix(f.Bad, "continues-record-of-previous-frame") {
 					cl = "frame-splits-message"
 				}
 				viol(cl, fmt.Sprintf("reader %d frame %d: %s", s.N, fi, f.Bad))
